@@ -9,9 +9,17 @@
   permutation of their declarations have the same canonical header and fall into one bucket of `mkBuckets`
   (`C06_renamed_permuted_same_header`, `C06_renamed_permuted_one_bucket`; proofs: C13's alpha-invariance and
   declaration-order theorems).
+  Bound placement and bound order on the syntactic level (final sections; proofs: `Lemmas/FlatPlacement.lean`): for
+  un-nested invocations, presentations whose blocks list the same bounds in a different order / position
+  (`PlacedAs`) get the same verdict and corresponding families (`C06_flat_placement_acceptance`, `_families`, `_parse`,
+  `_items`, `_checked`), under `noConflictingBindings` — needed, `C06_flat_placement_counterexample` — and implement the
+  trait for the same queries (`C06_flat_placement_same_dispatch`); moving a bound into the where-clause is such a
+  presentation (`C06_move_bound_to_where`).
 -/
 import DisjointImpls.Props.C05
 import DisjointImpls.Props.C13
+import DisjointImpls.Props.C02
+import DisjointImpls.Lemmas.FlatPlacement
 namespace DI
 
 /-- the order in which a block's bounds are written (hence inline vs where-clause placement, which only moves a
@@ -134,5 +142,464 @@ theorem C06_renamed_permuted_any_example :
     exact List.Perm.swap _ _ _
   · with_unfolding_all decide
 end C06Examples
+
+/-! ## Bound placement and bound order on the syntactic level, un-nested invocations (proofs: `Lemmas/FlatPlacement.lean`)
+
+Moving a trait bound between its inline position and the where-clause, or re-ordering bounds / predicates, PERMUTES the
+list `Blk.raw` that `Bounds.findBounds` (model of `TraitBoundsVisitor::find`) extracts from a block. (For a bound-only
+parameter it may also change the canonical numbering — finding D20; here the canonical header is assumed unchanged.)
+
+* `PlacedAs b b'` (executable: `placedAsB`): the same canonical header `groupIdOf` and `b'.raw` is a permutation of `b.raw`.
+* `BucketsPlaced l l'` (executable: `bucketsPlacedB`): two lists of buckets with, bucket by bucket, the same header and,
+  block by block, `PlacedAs`. The theorems are stated for the bucket-by-bucket loop `goFlat` on explicit buckets — which
+  is `parseGroups` for un-nested invocations (`C11_flat`) — and then for `parseGroups` itself.
+* Side conditions (executable): `flatBucketsOK_pl l` — every header that matches itself does so with identity bindings
+  only (`selfWeak`), no bucket is empty, every trait path of a bound can be compared by `TraitBound::eq` (`wfBlk`), the
+  blocks of a bucket are pairwise different, and `noConflictingBindings b` for every block: the bounds of the block with
+  one dispatch key (same bounded type, `TraitBound::eq` trait paths) that bind an associated type agree on what they
+  bind it to (fails for `T: D<G = A>` and `T: D<G = B>` in one block). The last one is needed, and exactly so:
+  `IndexMap::extend` lets the last binding win, so the order of such bounds changes the row
+  (`C06_noConflictingBindings_necessary`) and even acceptance (`C06_flat_placement_counterexample`). `bucketsNodup_pl l'`: the blocks of every bucket of the second presentation
+  are pairwise different (true of the buckets `mkBuckets` builds).
+* `Verdict` / `ParseResult.verdict`: accepted, rejected with "Unable to form impl group" for a header, or a panic. -/
+
+/-- **what a block binds an associated type to under a dispatch key** (`cell b (k, x)`, the payload the search compares):
+    the LAST binding of `x` among the bounds of the block whose key is `TraitBound::eq` to `k`, in the order
+    `TraitBoundsVisitor` lists them (inline bounds by parameter identifier, then the where-clause). Side conditions:
+    the trait paths of the block and of `k` can be compared (`wfBlk`, `WfKey`). -/
+theorem C06_cell_last_binding_wins (b : Blk) (hb : wfBlk b = true) (k : BKey) (hk : WfKey k) (x : String) :
+    cell b (k, x) = b.raw.foldl (fun o rb =>
+      if keyEq (rb.bounded, rb.tr) k then rb.binds.foldl (fun o e => if e.1 == x then some e.2 else o) o else o) none :=
+  cell_eq_pl hb hk x
+
+/-- … hence it does not depend on the placement / order of the bounds when the bounds with one key that bind an
+    associated type agree on its binding (`noConflictingBindings`); and whether the block has a bound with that key never
+    does -/
+theorem C06_block_rows_placement (b b' : Blk) (hp : PlacedAs b b') (hb : wfBlk b = true)
+    (hc : noConflictingBindings b = true) (k : BKey) (hk : WfKey k) :
+    (rowOf b' k).isSome = (rowOf b k).isSome ∧ (∀ x, rowLookup (rowD b' k) x = rowLookup (rowD b k) x) ∧
+    ∀ p, p ∈ b'.unsized ↔ p ∈ b.unsized := by
+  have hs := blkSim_of_perm_pl hp.2 hb hc
+  exact ⟨(hs.some k hk).symm, fun x => (hs.cell k hk x).symm, fun p => (hs.uns p).symm⟩
+
+/-- **`noConflictingBindings` is necessary block by block**: a block (with comparable trait paths) that violates it has
+    a presentation — the same item, its bounds in another order — that binds some associated type under some key to a
+    different payload -/
+theorem C06_noConflictingBindings_necessary (b : Blk) (hb : wfBlk b = true) (hc : noConflictingBindings b = false) :
+    ∃ b', PlacedAs b b' ∧ ∃ k x, WfKey k ∧ cell b' (k, x) ≠ cell b (k, x) := by
+  obtain ⟨b', h1, h2, h3⟩ := noConflict_necessary_pl hb hc
+  exact ⟨b', ⟨by rw [h1], h2⟩, h3⟩
+
+/-- **the candidate filter on a bucket does not depend on the placement / order of the bounds of its blocks**
+    (`accOK`: what acceptance is bucket by bucket, `C05_flat_acceptance_characterised`; `separatedB`: its executable
+    order-free form, `C03_flat_acceptance_exact`). Side conditions: the blocks of each presentation are pairwise
+    different, `wfBlk` and `noConflictingBindings` for the blocks of the first one. -/
+theorem C06_bucket_filter_placement (blks blks' : List Blk) (hp : Forall2 PlacedAs blks blks')
+    (hok : ∀ b ∈ blks, wfBlk b = true ∧ noConflictingBindings b = true) (hnd : blks.Nodup) (hnd' : blks'.Nodup) :
+    accOK blks = accOK blks' ∧ separatedB blks = separatedB blks' := by
+  have hs : BlksSim_pl blks blks' := by
+    have := bucketsSim_of_placed_pl (l := [(T.tparam "", blks)]) (l' := [(T.tparam "", blks')])
+      (.cons ⟨rfl, hp⟩ .nil) (by
+        intro bk hbk b hb
+        simp only [List.mem_singleton] at hbk
+        subst hbk
+        exact hok b hb)
+    cases this with | cons h _ => exact h.2
+  have hacc := accOK_sim_pl hs hnd hnd'
+  refine ⟨hacc, ?_⟩
+  cases hs with
+  | nil => rfl
+  | @cons b b' t t' h1 ht =>
+    have hall : BlksSim_pl (b :: t) (b' :: t') := .cons h1 ht
+    rw [← accOK_eq_separatedB (by simp) (blksSim_wf_pl hall) hnd,
+      ← accOK_eq_separatedB (by simp) (blksSim_wf_pl (blksSim_symm_pl hall)) hnd', hacc]
+
+/-- **1. acceptance does not depend on the placement / order of the bounds** (the loop over flat buckets): the two
+    presentations get the same verdict — both accepted, or both rejected with "Unable to form impl group" for the
+    same header, or both panic in the same way -/
+theorem C06_flat_placement_acceptance (l l' : List (T × List Blk)) (hpl : BucketsPlaced l l')
+    (hok : flatBucketsOK_pl l = true) (hnd' : bucketsNodup_pl l' = true) :
+    (goFlat l []).verdict = (goFlat l' []).verdict :=
+  goFlat_placement_verdict_pl hpl hok hnd'
+
+/-- … spelled out -/
+theorem C06_flat_placement_acceptance_iff (l l' : List (T × List Blk)) (hpl : BucketsPlaced l l')
+    (hok : flatBucketsOK_pl l = true) (hnd' : bucketsNodup_pl l' = true) :
+    ((∃ g, goFlat l [] = .ok g) ↔ (∃ g', goFlat l' [] = .ok g')) ∧
+    (∀ id, goFlat l [] = .unableToForm id ↔ goFlat l' [] = .unableToForm id) ∧
+    (∀ e, goFlat l [] = .panic e ↔ goFlat l' [] = .panic e) := by
+  have h := C06_flat_placement_acceptance l l' hpl hok hnd'
+  revert h
+  cases goFlat l [] with
+  | ok g =>
+    cases goFlat l' [] with
+    | ok g' =>
+      intro _
+      exact ⟨⟨fun _ => ⟨g', rfl⟩, fun _ => ⟨g, rfl⟩⟩, fun id => ⟨fun h => (by cases h), fun h => (by cases h)⟩,
+        fun e => ⟨fun h => (by cases h), fun h => (by cases h)⟩⟩
+    | unableToForm id' => intro h; cases h
+    | panic e' => intro h; cases h
+  | unableToForm id0 =>
+    cases goFlat l' [] with
+    | ok g' => intro h; cases h
+    | unableToForm id' =>
+      intro h
+      simp only [ParseResult.verdict, Verdict.unable.injEq] at h
+      subst h
+      exact ⟨⟨fun ⟨_, h⟩ => (by cases h), fun ⟨_, h⟩ => (by cases h)⟩, fun id => Iff.rfl, fun e => Iff.rfl⟩
+    | panic e' => intro h; cases h
+  | panic e0 =>
+    cases goFlat l' [] with
+    | ok g' => intro h; cases h
+    | unableToForm id' => intro h; cases h
+    | panic e' =>
+      intro h
+      simp only [ParseResult.verdict, Verdict.panic.injEq] at h
+      subst h
+      exact ⟨⟨fun ⟨_, h⟩ => (by cases h), fun ⟨_, h⟩ => (by cases h)⟩, fun id => Iff.rfl, fun e => Iff.rfl⟩
+
+/-- **2. the families do not depend on the placement / order of the bounds**: when both presentations are accepted the
+    families correspond one to one in the same order (`FamSim_pl`): the same header; the members position by position
+    with the same rows as finite maps and the same `?Sized` types (`BlkSim_pl`); the same keys up to spelling and order
+    (`nk`: bounded type and dispatch key of the trait path — the list of normal forms is a permutation); under
+    `keyEq` keys every member has the same row up to the order of the associated-type identifiers (`RowEq_pl`:
+    `rowLookup r a = rowLookup r' a` for every `a`), in both directions; the same `?Sized` set -/
+theorem C06_flat_placement_families (l l' : List (T × List Blk)) (g g' : Groups) (hpl : BucketsPlaced l l')
+    (hok : flatBucketsOK_pl l = true) (hg : goFlat l [] = .ok g) (hg' : goFlat l' [] = .ok g') :
+    Forall2 FamSim_pl g g' :=
+  goFlat_placement_families_pl hpl hok hg hg'
+
+/-- … in particular the members of corresponding families are presentations of each other, in the same order -/
+theorem C06_flat_placement_members (l l' : List (T × List Blk)) (g g' : Groups) (hpl : BucketsPlaced l l')
+    (hok : flatBucketsOK_pl l = true) (hg : goFlat l [] = .ok g) (hg' : goFlat l' [] = .ok g') :
+    Forall2 (fun e e' => e.1 = e'.1 ∧ Forall2 PlacedAs e.2.2 e'.2.2) g g' := by
+  have hs := flatBucketsOK_spec_pl hok
+  have hl : ∀ bk ∈ l, selfWeak bk.1 = true ∧ bk.2 ≠ [] := fun bk hbk => (hs bk hbk).1
+  have hl' : ∀ bk' ∈ l', selfWeak bk'.1 = true ∧ bk'.2 ≠ [] := by
+    intro bk' hbk'
+    obtain ⟨bk, hbk, h1, h2⟩ := forall₂_right hpl bk' hbk'
+    refine ⟨h1 ▸ (hl bk hbk).1, ?_⟩
+    intro e
+    have := forall2_length_pl h2
+    rw [e] at this
+    exact (hl bk hbk).2 (List.length_eq_zero_iff.1 this)
+  rw [goFlat_ok_groups_pl hl hg, goFlat_ok_groups_pl hl' hg']
+  exact forall2_map_pl grpOf_pl grpOf_pl (fun _ _ h => h) hpl
+
+/-- **1./2. on `parseGroups`**: two un-nested invocations whose buckets correspond up to the placement / order of the
+    bounds get the same verdict, and when accepted corresponding families. Side conditions on the first invocation
+    only: no header generalises a different one (`msPairs … = []`, i.e. `noNesting`), `flatWF0` (C05) and
+    `noConflictingBindingsAll`. -/
+theorem C06_flat_placement_parse (items items' : List T)
+    (hpl : BucketsPlaced (mkBuckets (items.map mkBlk)) (mkBuckets (items'.map mkBlk)))
+    (hms : msPairs ((mkBuckets (items.map mkBlk)).map (·.1)) = []) (hwf : flatWF0 items = true)
+    (hc : noConflictingBindingsAll items = true) :
+    (parseGroups items).verdict = (parseGroups items').verdict ∧
+    ∀ g g', parseGroups items = .ok g → parseGroups items' = .ok g' → Forall2 FamSim_pl g g' :=
+  ⟨parseGroups_placement_verdict_pl hpl hms hwf hc, fun _ _ hg hg' => parseGroups_placement_families_pl hpl hms hwf hc hg hg'⟩
+
+/-- **3. the semantic level**: `PlacedItem it it'` (executable: `placedItemB`) — `PlacedAs` on the canonical blocks and
+    the same declared type parameters. A block and its presentation apply to the same queries … -/
+theorem C06_placed_block_applies (it it' : T) (h : PlacedItem it it') (W : World) (q : T) :
+    applies W (mkBlock (canon it)) q ↔ applies W (mkBlock (canon it')) q :=
+  applies_placed_pl h W q
+
+/-- … so, with `C02_end_to_end_flat_coverage` for both presentations (its side conditions for both groupings), the two
+    generated programs implement the trait for exactly the same queries -/
+theorem C06_flat_placement_same_dispatch (items items' : List T) (groups groups' : Groups)
+    (hpl : Forall2 PlacedItem items items')
+    (h : parseGroups items = .ok groups) (h' : parseGroups items' = .ok groups')
+    (hn : noNesting items = true) (hn' : noNesting items' = true) (sp sp' : List String)
+    (hok : ∀ e ∈ groups, flatGroupOK e = true ∧ hdrCoversB (familyOfGroup sp e) = true)
+    (hok' : ∀ e ∈ groups', flatGroupOK e = true ∧ hdrCoversB (familyOfGroup sp' e) = true)
+    (W : World) (hw : ∀ e ∈ groups, WorldTotal W (familyOfGroup sp e)) (hw' : ∀ e ∈ groups', WorldTotal W (familyOfGroup sp' e))
+    (hsz : ∀ e ∈ groups, ∀ m ∈ (familyOfGroup sp e).members, SizedCompat W (familyOfGroup sp e) m)
+    (hsz' : ∀ e ∈ groups', ∀ m ∈ (familyOfGroup sp' e).members, SizedCompat W (familyOfGroup sp' e) m) (q : T) :
+    (∃ e ∈ groups, ∃ m ∈ (familyOfGroup sp e).members, genSel W (familyOfGroup sp e) m q) ↔
+    (∃ e ∈ groups', ∃ m ∈ (familyOfGroup sp' e).members, genSel W (familyOfGroup sp' e) m q) := by
+  rw [C02_end_to_end_flat_coverage items groups h hn sp hok W hw hsz q,
+    C02_end_to_end_flat_coverage items' groups' h' hn' sp' hok' W hw' hsz' q]
+  exact exists_applies_placed_pl hpl W q
+
+/-- … as an executable check on the two groupings (`famSimB_pl`: what the test harness evaluates on the families
+    computed for two presentations): same header, members `placedAsB`, the normal forms of the keys a permutation
+    (`isPerm`), rows equal as finite maps under `keyEq` keys in both directions (`rowEqB_pl`), the same `?Sized` set -/
+theorem C06_flat_placement_families_check (l l' : List (T × List Blk)) (g g' : Groups) (hpl : BucketsPlaced l l')
+    (hok : flatBucketsOK_pl l = true) (hg : goFlat l [] = .ok g) (hg' : goFlat l' [] = .ok g') :
+    forall2B_pl famSimB_pl g g' = true := by
+  have h1 := C06_flat_placement_families l l' g g' hpl hok hg hg'
+  have h2 := C06_flat_placement_members l l' g g' hpl hok hg hg'
+  rw [forall2B_iff_pl (R := fun e e' => famSimB_pl e e' = true) (fun _ _ => Iff.rfl)]
+  exact forall2_imp_pl (fun _ _ h => famSimB_of_pl h.1 h.2.2) (forall2_and_pl h1 h2)
+
+/-- **1./2. for two invocations that correspond block by block**: `items'` presents `items` with, block by block in
+    input order, the same canonical header and the bounds placed / ordered differently (`PlacedAs` on `mkBlk`); the
+    canonical block texts are pairwise different on both sides. Then the buckets correspond
+    (`mkBuckets_placed_pl`), the verdicts agree and the families correspond. -/
+theorem C06_flat_placement_items (items items' : List T)
+    (hpl : Forall2 PlacedAs (items.map mkBlk) (items'.map mkBlk))
+    (hnd : ((items.map mkBlk).map (·.item)).Nodup) (hnd' : ((items'.map mkBlk).map (·.item)).Nodup)
+    (hn : noNesting items = true) (hwf : flatWF0 items = true) (hc : noConflictingBindingsAll items = true) :
+    (parseGroups items).verdict = (parseGroups items').verdict ∧
+    ∀ g g', parseGroups items = .ok g → parseGroups items' = .ok g' →
+      Forall2 FamSim_pl g g' ∧ forall2B_pl famSimB_pl g g' = true := by
+  have hb := mkBuckets_placed_pl hpl hnd hnd'
+  have hms : msPairs ((mkBuckets (items.map mkBlk)).map (·.1)) = [] := by simpa [noNesting] using hn
+  obtain ⟨hv, hf⟩ := C06_flat_placement_parse items items' hb hms hwf hc
+  refine ⟨hv, fun g g' hg hg' => ⟨hf g g' hg hg', ?_⟩⟩
+  obtain ⟨e1, e2⟩ := parseGroups_placed_flat_pl hb hms
+  exact C06_flat_placement_families_check _ _ g g' hb (buckets_ok_pl items hwf hc) (e1 ▸ hg) (e2 ▸ hg')
+
+/-- … with all hypotheses in ONE executable check `placementPreB items items'` (what the harness evaluates) -/
+theorem C06_flat_placement_checked (items items' : List T) (h : placementPreB items items' = true) :
+    (parseGroups items).verdict = (parseGroups items').verdict ∧
+    ∀ g g', parseGroups items = .ok g → parseGroups items' = .ok g' → forall2B_pl famSimB_pl g g' = true := by
+  obtain ⟨hb, hms, hwf, hc⟩ := placementPreB_spec h
+  obtain ⟨hv, _⟩ := C06_flat_placement_parse items items' hb hms hwf hc
+  refine ⟨hv, fun g g' hg hg' => ?_⟩
+  obtain ⟨e1, e2⟩ := parseGroups_placed_flat_pl hb hms
+  exact C06_flat_placement_families_check _ _ g g' hb (buckets_ok_pl items hwf hc) (e1 ▸ hg) (e2 ▸ hg')
+
+/-! ### which syntactic changes permute `Blk.raw`
+
+`findBounds` lists the inline bounds of the parameters sorted by identifier, then the where-clause: up to a permutation
+it is `unsortedBounds_pl` (declaration order, then the where-clause). Hence moving bounds of a parameter into a new
+where-predicate, re-ordering the where-predicates and re-ordering bounds all permute it. The statements are about the
+generics of the CANONICAL blocks (`genericsOf_pl (canon it)`), described through the accessors `genericsParams` /
+`genericsWhere`; that the canonical header is unchanged is a hypothesis (finding D20: for a bound-only parameter the
+canonical numbering may change). -/
+
+/-- `TraitBoundsVisitor::find` is, up to a permutation, the bounds in declaration order followed by the where-clause -/
+theorem C06_findBounds_perm_unsorted (g : T) : (findBounds g).Perm (unsortedBounds_pl g) :=
+  findBounds_perm_unsorted_pl g
+
+/-- **moving bounds `bs2` of the type parameter `x` from their inline position into a new predicate `x: bs2` at the end
+    of the where-clause** (canonical header unchanged) yields a presentation of the same block in the sense of
+    `PlacedAs`; `typeParam_pl a c e d x bs` is the parameter `x: bs` (other fields arbitrary), `wherePred_pl lts t bs`
+    the predicate `t: bs` -/
+theorem C06_move_bound_to_where (it it' : T) (pre post : List T) (a c e d lts : T) (x : String) (bs1 bs2 : List T)
+    (hhdr : groupIdOf (canon it) = groupIdOf (canon it'))
+    (hps : genericsParams (genericsOf_pl (canon it)) = pre ++ [typeParam_pl a c e d x (bs1 ++ bs2)] ++ post)
+    (hps' : genericsParams (genericsOf_pl (canon it')) = pre ++ [typeParam_pl a c e d x bs1] ++ post)
+    (hw : genericsWhere (genericsOf_pl (canon it')) =
+      genericsWhere (genericsOf_pl (canon it)) ++ [wherePred_pl lts (mkTypeIdent x) bs2]) :
+    PlacedAs (mkBlk it) (mkBlk it') :=
+  ⟨hhdr, findBounds_move_pl _ _ pre post a c e d lts x bs1 bs2 hps hps' hw⟩
+
+/-- re-ordering the where-predicates (canonical header and parameters unchanged) likewise -/
+theorem C06_reorder_where (it it' : T) (hhdr : groupIdOf (canon it) = groupIdOf (canon it'))
+    (hps : genericsParams (genericsOf_pl (canon it')) = genericsParams (genericsOf_pl (canon it)))
+    (hw : (genericsWhere (genericsOf_pl (canon it'))).Perm (genericsWhere (genericsOf_pl (canon it)))) :
+    PlacedAs (mkBlk it) (mkBlk it') :=
+  ⟨hhdr, findBounds_where_perm_pl _ _ hps hw⟩
+
+namespace Ex06
+open Ex11
+/-- `impl<T> Kita for T where T: Dispatch<Group = GroupB> {}` -/
+def whereB : T := implW [tyParam "T" []] [pred tT [traitBound (dispatch "GroupB")]] tT
+/-- the README pair, both dispatch bounds inline:
+    `impl<T: Dispatch<Group = GroupA>> Kita for T {}`  +  `impl<T: Dispatch<Group = GroupB>> Kita for T {}` -/
+def inlineItems : List T := [blockFor "GroupA", blockFor "GroupB"]
+/-- … the second block with its dispatch bound in the where-clause:
+    `impl<T: Dispatch<Group = GroupA>> Kita for T {}`  +  `impl<T> Kita for T where T: Dispatch<Group = GroupB> {}` -/
+def whereItems : List T := [blockFor "GroupA", whereB]
+/-- `impl<T: Other<Kind = X>> Kita for T where T: Dispatch<Group = GroupA> {}` -/
+def movedAX : T := implW [tyParam "T" [traitBound (otherTr "X")]] [pred tT [traitBound (dispatch "GroupA")]] tT
+/-- two keys per block: `impl<T: Dispatch<Group = GroupA> + Other<Kind = X>> Kita for T {}`  +
+    `impl<T: Dispatch<Group = GroupB> + Other<Kind = Y>> Kita for T {}` -/
+def twoKeys : List T := [block2 "GroupA" "X", block2 "GroupB" "Y"]
+/-- … the first block with its two bounds in the other order (one of them moved to the where-clause):
+    `impl<T: Other<Kind = X>> Kita for T where T: Dispatch<Group = GroupA> {}`  +  the second block unchanged -/
+def twoKeysMoved : List T := [movedAX, block2 "GroupB" "Y"]
+/-- `impl<T: Dispatch<Group = GroupA>> Kita for T where T: Dispatch<Group = GroupB> {}` -/
+def conflictAB : T := implW [tyParam "T" [traitBound (dispatch "GroupA")]] [pred tT [traitBound (dispatch "GroupB")]] tT
+/-- `impl<T> Kita for T where T: Dispatch<Group = GroupB>, T: Dispatch<Group = GroupA> {}`: the inline bound of
+    `conflictAB` moved to the END of the where-clause -/
+def conflictBA : T :=
+  implW [tyParam "T" []] [pred tT [traitBound (dispatch "GroupB")], pred tT [traitBound (dispatch "GroupA")]] tT
+/-- conflicting bindings: `conflictAB`  +  `impl<T: Dispatch<Group = GroupB>> Kita for T {}` -/
+def conflictItems : List T := [conflictAB, blockFor "GroupB"]
+/-- … `conflictBA`  +  the second block unchanged -/
+def conflictMoved : List T := [conflictBA, blockFor "GroupB"]
+/-- the buckets of an invocation -/
+def bucketsOf (items : List T) : List (T × List Blk) := mkBuckets (items.map mkBlk)
+/-- the canonical bound `T: Dispatch<Group = g>` as `TraitBoundsVisitor` lists it -/
+def rbD (g : String) : RawBound := ⟨.tparam "_ŠČ0", dispatch g, [("Group", tyPath [seg g])], false⟩
+/-- the canonical bound `T: Other<Kind = k>` -/
+def rbO (k : String) : RawBound := ⟨.tparam "_ŠČ0", otherTr k, [("Kind", tyPath [seg k])], false⟩
+end Ex06
+
+section C06PlacementExamples
+open Ex11 Ex06
+set_option maxRecDepth 1000000
+
+theorem Ex06.placed_whereB : PlacedAs (mkBlk (blockFor "GroupB")) (mkBlk whereB) := by
+  have r1 : (mkBlk (blockFor "GroupB")).raw = [rbD "GroupB"] := by decide +kernel
+  have r2 : (mkBlk whereB).raw = [rbD "GroupB"] := by decide +kernel
+  exact ⟨by decide +kernel, by rw [r1, r2]⟩
+
+theorem Ex06.placed_movedAX : PlacedAs (mkBlk (block2 "GroupA" "X")) (mkBlk movedAX) := by
+  have r1 : (mkBlk (block2 "GroupA" "X")).raw = [rbD "GroupA", rbO "X"] := by decide +kernel
+  have r2 : (mkBlk movedAX).raw = [rbO "X", rbD "GroupA"] := by decide +kernel
+  exact ⟨by decide +kernel, by rw [r1, r2]; exact List.Perm.swap _ _ _⟩
+
+theorem Ex06.placed_conflict : PlacedAs (mkBlk conflictAB) (mkBlk conflictBA) := by
+  have r1 : (mkBlk conflictAB).raw = [rbD "GroupA", rbD "GroupB"] := by decide +kernel
+  have r2 : (mkBlk conflictBA).raw = [rbD "GroupB", rbD "GroupA"] := by decide +kernel
+  exact ⟨by decide +kernel, by rw [r1, r2]; exact List.Perm.swap _ _ _⟩
+
+theorem Ex06.placed_refl (it : T) : PlacedAs (mkBlk it) (mkBlk it) := ⟨rfl, List.Perm.refl _⟩
+
+/-- non-vacuity of `C06_flat_placement_acceptance` / `_families` / `_parse`: the README pair with the dispatch bound of
+    the second block inline vs in the where-clause satisfies every hypothesis (the two presentations are different
+    inputs with different canonical blocks) -/
+theorem C06_flat_placement_readme_pre :
+    BucketsPlaced (bucketsOf inlineItems) (bucketsOf whereItems) ∧
+    flatBucketsOK_pl (bucketsOf inlineItems) = true ∧ bucketsNodup_pl (bucketsOf whereItems) = true ∧
+    noNesting inlineItems = true ∧ flatWF0 inlineItems = true ∧ noConflictingBindingsAll inlineItems = true ∧
+    bucketsOf inlineItems ≠ bucketsOf whereItems := by
+  refine ⟨?_, ?_, ?_, ?_, ?_, ?_, ?_⟩
+  · exact bucketsPlaced_pair_pl _ _ _ _ (by decide +kernel) (by decide +kernel) (by decide +kernel) (by decide +kernel)
+      (Ex06.placed_refl _) Ex06.placed_whereB
+  all_goals decide +kernel
+
+/-- … and the theorems yield: the where-clause presentation is accepted (because the inline one is), with one family of
+    two members whose keys and rows correspond -/
+theorem C06_flat_placement_readme :
+    ∃ g g', parseGroups inlineItems = .ok g ∧ parseGroups whereItems = .ok g' ∧ Forall2 FamSim_pl g g' := by
+  obtain ⟨h1, _, _, h4, h5, h6, _⟩ := C06_flat_placement_readme_pre
+  have hms : msPairs ((mkBuckets (inlineItems.map mkBlk)).map (·.1)) = [] := by simpa [noNesting] using h4
+  obtain ⟨hv, hf⟩ := C06_flat_placement_parse inlineItems whereItems h1 hms h5 h6
+  obtain ⟨g, hg, _⟩ := ParseResult.ok_of_check (r := parseGroups inlineItems) (f := fun _ => true)
+    (by decide +kernel)
+  rw [hg] at hv
+  cases hg' : parseGroups whereItems with
+  | ok g' => exact ⟨g, g', hg, rfl, hf g g' hg hg'⟩
+  | unableToForm id => rw [hg'] at hv; cases hv
+  | panic e => rw [hg'] at hv; cases hv
+
+/-- non-vacuity with two keys per block, the bounds of the first block in both orders: `TraitBoundsVisitor` lists
+    `[Dispatch, Other]` for `block2 "GroupA" "X"` and `[Other, Dispatch]` for `movedAX` -/
+theorem C06_flat_placement_two_keys_pre :
+    BucketsPlaced (bucketsOf twoKeys) (bucketsOf twoKeysMoved) ∧
+    flatBucketsOK_pl (bucketsOf twoKeys) = true ∧ bucketsNodup_pl (bucketsOf twoKeysMoved) = true ∧
+    noNesting twoKeys = true ∧ flatWF0 twoKeys = true ∧ noConflictingBindingsAll twoKeys = true ∧
+    (mkBlk (block2 "GroupA" "X")).raw = [rbD "GroupA", rbO "X"] ∧ (mkBlk movedAX).raw = [rbO "X", rbD "GroupA"] := by
+  refine ⟨?_, ?_, ?_, ?_, ?_, ?_, ?_, ?_⟩
+  · exact bucketsPlaced_pair_pl _ _ _ _ (by decide +kernel) (by decide +kernel) (by decide +kernel) (by decide +kernel)
+      Ex06.placed_movedAX (Ex06.placed_refl _)
+  all_goals decide +kernel
+
+theorem C06_flat_placement_two_keys :
+    (goFlat (bucketsOf twoKeys) []).verdict = .accepted ∧ (goFlat (bucketsOf twoKeysMoved) []).verdict = .accepted := by
+  obtain ⟨h1, h2, h3, _⟩ := C06_flat_placement_two_keys_pre
+  have hv := C06_flat_placement_acceptance _ _ h1 h2 h3
+  have : (goFlat (bucketsOf twoKeys) []).verdict = .accepted := by decide +kernel
+  exact ⟨this, by rw [← hv]; exact this⟩
+
+/-- **the side condition `noConflictingBindings` cannot be dropped** (a genuine order dependence of the macro inside a
+    block): with `T: Dispatch<Group = GroupA>` inline and `T: Dispatch<Group = GroupB>` in the where-clause the LAST
+    binding wins (`IndexMap::extend`), the first block counts as `Group = GroupB`, collides with the second block and
+    the invocation is rejected; with the inline bound moved to the end of the where-clause the first block counts as
+    `Group = GroupA` and the invocation is accepted. Every other hypothesis of `C06_flat_placement_acceptance` /
+    `C06_flat_placement_parse` holds. -/
+theorem C06_flat_placement_counterexample :
+    BucketsPlaced (bucketsOf conflictItems) (bucketsOf conflictMoved) ∧
+    bucketsNodup_pl (bucketsOf conflictMoved) = true ∧ noNesting conflictItems = true ∧ flatWF0 conflictItems = true ∧
+    noConflictingBindingsAll conflictItems = false ∧
+    (match parseGroups conflictItems with | .unableToForm _ => true | _ => false) = true ∧
+    (parseGroups conflictMoved).verdict = .accepted ∧
+    (goFlat (bucketsOf conflictItems) []).verdict ≠ (goFlat (bucketsOf conflictMoved) []).verdict := by
+  refine ⟨?_, ?_, ?_, ?_, ?_, ?_, ?_, ?_⟩
+  · exact bucketsPlaced_pair_pl _ _ _ _ (by decide +kernel) (by decide +kernel) (by decide +kernel) (by decide +kernel)
+      Ex06.placed_conflict (Ex06.placed_refl _)
+  all_goals decide +kernel
+
+/-- hence the acceptance statement without `noConflictingBindings` is false -/
+theorem C06_flat_placement_unconditional_false :
+    ¬ ∀ (items items' : List T), BucketsPlaced (mkBuckets (items.map mkBlk)) (mkBuckets (items'.map mkBlk)) →
+        noNesting items = true → flatWF0 items = true → (parseGroups items).verdict = (parseGroups items').verdict := by
+  intro hall
+  obtain ⟨h1, _, h3, h4, _, h6, h7, _⟩ := C06_flat_placement_counterexample
+  have := hall conflictItems conflictMoved h1 h3 h4
+  rw [h7] at this
+  cases hr : parseGroups conflictItems with
+  | ok g => rw [hr] at h6; cases h6
+  | unableToForm id => rw [hr] at this; cases this
+  | panic e => rw [hr] at this; cases this
+
+/-- non-vacuity of `C06_flat_placement_same_dispatch`, on the README pair inline vs where-clause and the world `E2E.W`
+    (`u32: Dispatch<Group = GroupA>`, `i64: Dispatch<Group = GroupB>`): every hypothesis holds for both presentations,
+    so both generated programs implement `Kita` for the same queries — the where-clause one does for `Kita for i64` -/
+theorem C06_flat_placement_same_dispatch_readme :
+    ∃ gs gs', parseGroups inlineItems = .ok gs ∧ parseGroups whereItems = .ok gs' ∧
+      (∀ q, (∃ e ∈ gs, ∃ m ∈ (familyOfGroup ["_ŠČ0"] e).members, genSel E2E.W (familyOfGroup ["_ŠČ0"] e) m q) ↔
+            (∃ e ∈ gs', ∃ m ∈ (familyOfGroup ["_ŠČ0"] e).members, genSel E2E.W (familyOfGroup ["_ŠČ0"] e) m q)) ∧
+      (∃ e ∈ gs', ∃ m ∈ (familyOfGroup ["_ŠČ0"] e).members,
+        genSel E2E.W (familyOfGroup ["_ŠČ0"] e) m (E2E.query E2E.i64T)) := by
+  have hnames : typeParamNames (genericsOf_pl (canon (blockFor "GroupB"))) = typeParamNames (genericsOf_pl (canon whereB)) := by
+    decide +kernel
+  have hpl : Forall2 PlacedItem inlineItems whereItems :=
+    .cons ⟨Ex06.placed_refl _, fun _ => Iff.rfl⟩ (.cons ⟨Ex06.placed_whereB, fun x => by rw [hnames]⟩ .nil)
+  have side : ∀ items : List T, (match parseGroups items with
+      | .ok gs => gs.all (fun e => flatGroupOK e && hdrCoversB (familyOfGroup ["_ŠČ0"] e) &&
+          (familyOfGroup ["_ŠČ0"] e).keys.all (fun k => k.a == "Group"))
+      | _ => false) = true →
+      ∃ gs, parseGroups items = .ok gs ∧
+        (∀ e ∈ gs, flatGroupOK e = true ∧ hdrCoversB (familyOfGroup ["_ŠČ0"] e) = true) ∧
+        (∀ e ∈ gs, WorldTotal E2E.W (familyOfGroup ["_ŠČ0"] e)) ∧
+        (∀ e ∈ gs, ∀ m ∈ (familyOfGroup ["_ŠČ0"] e).members, SizedCompat E2E.W (familyOfGroup ["_ŠČ0"] e) m) := by
+    intro items hchk0
+    obtain ⟨gs, hgs, hchk⟩ := ParseResult.ok_of_check (r := parseGroups items)
+      (f := fun gs => gs.all (fun e => flatGroupOK e && hdrCoversB (familyOfGroup ["_ŠČ0"] e) &&
+        (familyOfGroup ["_ŠČ0"] e).keys.all (fun k => k.a == "Group"))) hchk0
+    simp only [List.all_eq_true, Bool.and_eq_true, beq_iff_eq] at hchk
+    refine ⟨gs, hgs, fun e he => (hchk e he).1, ?_, fun _ _ _ _ _ _ _ _ _ => rfl⟩
+    intro e he k hk tr ty bs hd
+    rw [(hchk e he).2 k hk]
+    simp only [E2E.W] at hd
+    split at hd
+    · cases hd; exact ⟨_, rfl⟩
+    · split at hd
+      · cases hd; exact ⟨_, rfl⟩
+      · cases hd
+  obtain ⟨gs, hgs, hok, hw, hsz⟩ := side inlineItems (by decide +kernel)
+  obtain ⟨gs', hgs', hok', hw', hsz'⟩ := side whereItems (by decide +kernel)
+  have hn : noNesting inlineItems = true := by decide +kernel
+  have hn' : noNesting whereItems = true := by decide +kernel
+  have hsame := C06_flat_placement_same_dispatch inlineItems whereItems gs gs' hpl hgs hgs' hn hn' ["_ŠČ0"] ["_ŠČ0"]
+    hok hok' E2E.W hw hw' hsz hsz'
+  refine ⟨gs, gs', hgs, hgs', hsame, (hsame _).1 ?_⟩
+  have hcov := C02_end_to_end_flat_coverage inlineItems gs hgs hn ["_ŠČ0"] hok E2E.W hw hsz
+  exact (hcov _).2 ⟨Ex11.blockFor "GroupB", by simp [inlineItems],
+    applies_of_B (ρ := [("_ŠČ0", .ty E2E.i64T)]) (by decide +kernel)⟩
+/-- non-vacuity of `C06_move_bound_to_where`: `impl<T: Dispatch<Group = GroupB>> Kita for T {}` against
+    `impl<T> Kita for T where T: Dispatch<Group = GroupB> {}` (`bs1 = []`, `bs2` = the dispatch bound; `_ŠČ0` is the
+    canonical spelling of `T`) -/
+theorem C06_move_bound_to_where_example : PlacedAs (mkBlk (blockFor "GroupB")) (mkBlk whereB) :=
+  C06_move_bound_to_where (blockFor "GroupB") whereB [] [] attrs (leaf "None") (leaf "None") (leaf "None") (leaf "None")
+    "_ŠČ0" [] [traitBound (dispatch "GroupB")] (by decide +kernel) (by decide +kernel) (by decide +kernel)
+    (by decide +kernel)
+
+/-- non-vacuity of `C06_flat_placement_items`: the README pair inline vs where-clause, block by block -/
+theorem C06_flat_placement_items_readme :
+    Forall2 PlacedAs (inlineItems.map mkBlk) (whereItems.map mkBlk) ∧
+    ((inlineItems.map mkBlk).map (·.item)).Nodup ∧ ((whereItems.map mkBlk).map (·.item)).Nodup ∧
+    noNesting inlineItems = true ∧ flatWF0 inlineItems = true ∧ noConflictingBindingsAll inlineItems = true := by
+  refine ⟨.cons (Ex06.placed_refl _) (.cons Ex06.placed_whereB .nil), ?_, ?_, ?_, ?_, ?_⟩
+  all_goals decide +kernel
+
+/-- non-vacuity of `C06_flat_placement_checked`: the one-shot check holds on the README pair inline vs where-clause -/
+theorem C06_flat_placement_checked_readme : placementPreB inlineItems whereItems = true := by
+  obtain ⟨h1, h2, h3, h4, h5, h6⟩ := C06_flat_placement_items_readme
+  simp only [placementPreB, Bool.and_eq_true, decide_eq_true_eq, List.isEmpty_iff]
+  exact ⟨⟨⟨⟨⟨(forall2B_iff_pl (fun a b => placedAsB_iff (b := a) (b' := b)) _ _).2 h1, h2⟩, h3⟩,
+    by simpa [noNesting] using h4⟩, h5⟩, h6⟩
+
+/-- non-vacuity of `C06_noConflictingBindings_necessary`: the block `conflictAB` -/
+example : wfBlk (mkBlk conflictAB) = true ∧ noConflictingBindings (mkBlk conflictAB) = false := by
+  constructor <;> decide +kernel
+
+end C06PlacementExamples
 
 end DI
